@@ -6,4 +6,5 @@ CONSTANTS
   GenFaults = {"ok", "exception", "garbage", "trunc", "exit", "dotdot", "samepath"}
   ByeFaults = {"ok", "noreply", "garbage"}
   NamesGoodbyeFailure = TRUE
+  DetachesStdout = TRUE
 CHECK_DEADLOCK FALSE
